@@ -288,7 +288,9 @@ def run_batch(cases, syntax, opts, ctx, where=0):
         # every member is right alone but the joined abbreviation is not "one property per line": shrink the batch greedily
         keep = list(range(len(cases)))
         i = 0
-        while i < len(keep) and len(keep) > 1:
+        ctx.extra['batch_only_failures'] += 1
+        # (the first few are shrunk to a minimal joined abbreviation; a defect that hits every batch would otherwise cost 40^2 expansions each)
+        while ctx.extra['batch_only_failures'] <= 3 and i < len(keep) and len(keep) > 1:
             trial = keep[:i] + keep[i + 1:]
             if not batch_ok([cases[j] for j in trial], [abbrs[j] for j in trial], syntax, opts, where):
                 keep = trial
